@@ -145,6 +145,33 @@ Section SoilTemp.
     let t00 := (tmin + tmax) / two in
     let initp := (t00 - tbase) / ofZ (Z.of_nat n) in
     t00 :: init_from t00 initp 1 n.
+
+  (* ---- where BD comes from: the soil readers and Input ----
+     soil.go:308-321 BulkDensityClassToDensity: KA5 bulk density class 1..5 -> mean density (g/cm3);
+     any other class leaves BULK at its initial 0 *)
+  Definition bd_of_class (c : Z) : option T :=
+    if Z.eqb c 1 then Some (dec 11 1)
+    else if Z.eqb c 2 then Some (dec 13 1)
+    else if Z.eqb c 3 then Some (dec 15 1)
+    else if Z.eqb c 4 then Some (dec 17 1)
+    else if Z.eqb c 5 then Some (dec 185 2)
+    else None.
+
+  (* soil.go:244-250 (csv: a measured BulkDensity wins over the class), soil.go:137-140 (txt: class only) *)
+  Definition horizon_bulk (c : Z) (measured : option T) : T :=
+    match measured with
+    | Some v => v
+    | None => match bd_of_class c with Some v => v | None => zero end
+    end.
+
+  (* input.go:208, 277: the 10-cm layers UKT[h-1]+1 .. UKT[h] of horizon h get BD = BULK[h] — the density of
+     the soil file as it is; the stone content scales W, WMIN, PORGES, WNOR only.
+     a horizon = (UKT lower boundary in dm, class, measured density) *)
+  Fixpoint layer_bd (prev : Z) (hs : list (Z * Z * option T)) : list T :=
+    match hs with
+    | [] => []
+    | (ukt, c, m) :: r => repeat (horizon_bulk c m) (Z.to_nat (ukt - prev)) ++ layer_bd ukt r
+    end.
 End SoilTemp.
 
 Arguments layer T : clear implicits.
